@@ -2,8 +2,12 @@
    Statements only; the specification is Bundle/ResolverSpec.v (`Eval`), the proofs are in
    Bundle/ResolverRefine.v.
 
-   `Eval … entries args p (text, errors, calls)` is a big-step relation written from the sentences of the
-   property (one rule per clause), with no scope, no fuel and no placeable counter.  The theorems say
+   `Eval … entries args is_open name (text, errors, calls)` is a big-step relation written from the sentences
+   of the property (one rule per clause), with no scope, no fuel and no placeable counter; `name` is the
+   message value / message attribute / term (attribute) that is formatted.  `is_open` says when a referenced
+   entry counts as "being expanded" (a cycle): open_by_identity = the reference names an entry that is being
+   expanded (the property); open_by_structure = a pattern being expanded is structurally EQUAL to the target
+   (what scope.rs does: travelled.contains(&pattern) compares with ==).  The theorems say
    that the resolver model (Bundle/ResolverModel.v, validated against the Rust code by the
    correspondence run) produces exactly what `Eval` assigns — text, the error list IN ORDER, and the
    list of registered-function invocations with their arguments — for every bundle, argument set,
@@ -17,6 +21,10 @@
        reference or a nested placeable — otherwise isolation marks become part of a compared / passed value
        (known finding D23, C09);
      * `formatter_keeps_strings` (only for format_pattern): known finding D22 (C08);
+     * `no_equal_patterns m` (only for the identity reading, C07_refines_partial): different entries of the bundle
+       have structurally different patterns.  Without it the real code can report a cycle where there is none
+       (NEW FINDING, witness C07_false_cycle_witness below, reproduced on the Rust code); the reading that
+       follows the code (open_by_structure) is proved without this hypothesis: C07_refines_structural_partial;
      * PARTIAL: `TooManyPlaceables` not among the reported errors.  A run that reaches the placeable limit is
        not described by `Eval`; for it C07_limit_reported_once (exactly one TooManyPlaceables, reported
        iff the run was cut short) and C06_budget / C06_limit_error hold.  What is printed after the limit
@@ -46,11 +54,12 @@ Notation write iso := (write_pattern overflow_checks call_function transform for
                          unescape_write unescape_to_string f64_from_str (Bundle m iso) args).
 Notation format iso := (format_pattern overflow_checks call_function transform formatter rules custom_as_string
                           unescape_write unescape_to_string f64_from_str (Bundle m iso) args).
-Notation Spec := (Eval call_function transform formatter rules custom_as_string unescape_write f64_from_str m args).
-Notation spec_inline := (eval_inline call_function transform formatter rules custom_as_string unescape_write f64_from_str m args).
-Notation spec_value := (eval_value call_function transform formatter rules custom_as_string unescape_write f64_from_str m args).
-Notation spec_args := (eval_args call_function transform formatter rules custom_as_string unescape_write f64_from_str m args).
-Notation spec_elements := (eval_elements call_function transform formatter rules custom_as_string unescape_write f64_from_str m args).
+Notation Spec := (Eval call_function transform formatter rules custom_as_string unescape_write f64_from_str m args open_by_identity).
+Notation SpecS := (Eval call_function transform formatter rules custom_as_string unescape_write f64_from_str m args open_by_structure).
+Notation spec_inline io := (eval_inline call_function transform formatter rules custom_as_string unescape_write f64_from_str m args io).
+Notation spec_value io := (eval_value call_function transform formatter rules custom_as_string unescape_write f64_from_str m args io).
+Notation spec_args io := (eval_args call_function transform formatter rules custom_as_string unescape_write f64_from_str m args io).
+Notation spec_elements io := (eval_elements call_function transform formatter rules custom_as_string unescape_write f64_from_str m args io).
 
 Notation iw b := (inline_write overflow_checks call_function transform formatter rules custom_as_string
                     unescape_write unescape_to_string f64_from_str b args).
@@ -60,58 +69,74 @@ Notation ga b := (get_arguments overflow_checks call_function transform formatte
                     unescape_write unescape_to_string f64_from_str b args).
 
 (* "the formatted text of a message value or attribute equals what the Fluent resolution rules give … and
-   nothing else is reported": whenever write_pattern returns (any fuel; C06_total: it does at fuel_of) without
-   having reported TooManyPlaceables, the text written (isolation marks removed), the error list and the
-   function invocations are exactly those of the specification.  PARTIAL only in the limit hypothesis. *)
-Theorem C07_refines_partial :
-  forall iso fuel p c o sc,
-    cache_ok rules c -> no_marks_in_values m iso p ->
+   nothing else is reported": whenever write_pattern on the pattern named n returns (any fuel; C06_total: it does
+   at fuel_of) without having reported TooManyPlaceables, the text written (isolation marks removed), the error
+   list and the function invocations are exactly those of the specification.  PARTIAL only in the limit
+   hypothesis.  First for the reading that follows the code in its cycle test — NO hypothesis on the bundle: *)
+Theorem C07_refines_structural_partial :
+  forall iso fuel n p c o sc,
+    cache_ok rules c -> no_marks_in_values m iso p -> pattern_named m n = Some p ->
     write iso fuel p c = Done (o, sc) ->
     ~ In TooManyPlaceables (sc_errors sc) ->
-    Spec p (flatten (strip o), sc_errors sc, sc_calls sc).
+    SpecS n (flatten (strip o), sc_errors sc, sc_calls sc).
 Proof.
-  intros iso fuel p c o sc Hc Hok H Hn.
+  intros iso fuel n p c o sc Hc Hok Hn H Hno.
   destruct (write_refines overflow_checks call_function transform formatter rules custom_as_string
-              unescape_write unescape_to_string f64_from_str m args unescape_forms_agree iso fuel p c o sc Hc Hok H) as [_ J].
+              unescape_write unescape_to_string f64_from_str m args unescape_forms_agree iso fuel n p c o sc Hc Hok Hn H) as [_ J].
   destruct (limit_reported_once overflow_checks call_function transform formatter rules custom_as_string
-              unescape_write unescape_to_string f64_from_str m args unescape_forms_agree iso fuel p c o sc Hc Hok H) as [_ Hd].
-  apply J. destruct (sc_dirty sc); [exfalso; apply Hn, Hd; reflexivity | reflexivity].
+              unescape_write unescape_to_string f64_from_str m args unescape_forms_agree iso fuel n p c o sc Hc Hok Hn H) as [_ Hd].
+  apply J. destruct (sc_dirty sc); [exfalso; apply Hno, Hd; reflexivity | reflexivity].
 Qed.
+
+(* … and for the property's own reading (a cycle = a reference to an entry that is being expanded), on every
+   bundle in which different entries have different patterns *)
+Theorem C07_refines_partial :
+  forall iso fuel n p c o sc,
+    no_equal_patterns m ->
+    cache_ok rules c -> no_marks_in_values m iso p -> pattern_named m n = Some p ->
+    write iso fuel p c = Done (o, sc) ->
+    ~ In TooManyPlaceables (sc_errors sc) ->
+    Spec n (flatten (strip o), sc_errors sc, sc_calls sc).
+Proof.
+  intros iso fuel n p c o sc Hd Hc Hok Hn H Hno.
+  apply Eval_structure_to_identity; [exact Hd|].
+  exact (C07_refines_structural_partial iso fuel n p c o sc Hc Hok Hn H Hno).
+Qed.
+
+(* the two readings of "cycle" coincide when different entries have different patterns *)
+Theorem C07_cycles_by_identity :
+  forall n r, no_equal_patterns m -> SpecS n r -> Spec n r.
+Proof. intros n r Hd. apply Eval_structure_to_identity. exact Hd. Qed.
 
 (* the same for the string API, isolation off: the returned string IS the specified text *)
 Theorem C07_refines_format_partial :
-  forall fuel p c text sc,
-    cache_ok rules c -> formatter_keeps_strings formatter ->
+  forall fuel n p c text sc,
+    no_equal_patterns m ->
+    cache_ok rules c -> formatter_keeps_strings formatter -> pattern_named m n = Some p ->
     format false (S fuel) p c = Done (text, sc) ->
     ~ In TooManyPlaceables (sc_errors sc) ->
-    Spec p (text, sc_errors sc, sc_calls sc).
+    Spec n (text, sc_errors sc, sc_calls sc).
 Proof.
-  intros fuel p c text sc Hc Hf H Hn.
-  rewrite (format_eq_write overflow_checks call_function transform formatter rules custom_as_string
-             unescape_write unescape_to_string f64_from_str (Bundle m false) args fuel p c Hf) in H.
-  destruct (write false (S fuel) p c) as [[o sc1]|t|] eqn:E; try discriminate. injection H as <- <-.
-  pose proof (C07_refines_partial false (S fuel) p c o sc1 Hc (fun Hx => False_ind _ (Bool.diff_false_true Hx)) E Hn) as J.
-  destruct (write_refines_off overflow_checks call_function transform formatter rules custom_as_string
-              unescape_write unescape_to_string f64_from_str m args unescape_forms_agree (S fuel) p c o sc1 Hc E) as [_ J'].
-  pose proof (Bundle.ResolverIso.out_all overflow_checks call_function transform formatter rules custom_as_string
-                unescape_write unescape_to_string f64_from_str (Bundle m false) args (S fuel)) as (Bpw & _).
-  destruct (Bpw p (scope_new c) o sc1 E) as [_ Hno]. rewrite (Hno eq_refl) in J. exact J.
+  intros fuel n p c text sc Hd Hc Hf Hn H Hno.
+  apply Eval_structure_to_identity; [exact Hd|].
+  exact (format_refines_off overflow_checks call_function transform formatter rules custom_as_string
+           unescape_write unescape_to_string f64_from_str m args unescape_forms_agree fuel n p c text sc Hc Hf Hn H Hno).
 Qed.
 
 (* the specification assigns at most one result: it is a function of (bundle, arguments, pattern) *)
 Theorem C07_spec_functional :
-  forall p r1 r2, Spec p r1 -> Spec p r2 -> r1 = r2.
+  forall n r1 r2, Spec n r1 -> Spec n r2 -> r1 = r2.
 Proof.
-  intros p r1 r2 H1 H2.
-  exact (proj1 (eval_functional call_function transform formatter rules custom_as_string unescape_write f64_from_str m args)
-           _ _ _ _ H2 _ H1).
+  intros n r1 r2 (q1 & N1 & H1) (q2 & N2 & H2). rewrite N1 in N2. injection N2 as <-.
+  exact (proj1 (eval_functional call_function transform formatter rules custom_as_string unescape_write f64_from_str m args
+                  open_by_identity) _ _ _ _ H2 _ H1).
 Qed.
 
 (* "an exceeded placeable limit is reported once": TooManyPlaceables occurs at most once in the error
    list, and it occurs iff the run was cut short (the dirty flag; C06_limit_error gives the counter) *)
 Theorem C07_limit_reported_once :
-  forall iso fuel p c o sc,
-    cache_ok rules c -> no_marks_in_values m iso p ->
+  forall iso fuel n p c o sc,
+    cache_ok rules c -> no_marks_in_values m iso p -> pattern_named m n = Some p ->
     write iso fuel p c = Done (o, sc) ->
     (tmp_count (sc_errors sc) <= 1)%nat /\ (In TooManyPlaceables (sc_errors sc) <-> sc_dirty sc = true).
 Proof.
@@ -128,9 +153,9 @@ Theorem C07_term_args_scoped :
      iw (Bundle m false) f i sc = Done (o, sc') -> sc_local_args sc' = sc_local_args sc) /\
   (forall f i sc v sc', cache_ok rules (sc_intls sc) -> sc_travelled sc <> [] ->
      ir (Bundle m false) f i sc = Done (v, sc') -> sc_local_args sc' = sc_local_args sc) /\
-  (forall T env id attr cargs rest r,
-     spec_elements T env (PlaceableElement (Inline (TermReference id attr cargs)) :: rest) r ->
-     exists r1 r2, spec_inline T env (TermReference id attr cargs) r1 /\ spec_elements T env rest r2 /\
+  (forall io T env id attr cargs rest r,
+     spec_elements io T env (PlaceableElement (Inline (TermReference id attr cargs)) :: rest) r ->
+     exists r1 r2, spec_inline io T env (TermReference id attr cargs) r1 /\ spec_elements io T env rest r2 /\
                    r = r1 +++ r2).
 Proof.
   split; [|split].
@@ -138,42 +163,37 @@ Proof.
                               unescape_write unescape_to_string f64_from_str m args unescape_forms_agree f))).
   - intros f. exact (proj2 (proj2 (local_args_restored overflow_checks call_function transform formatter rules custom_as_string
                               unescape_write unescape_to_string f64_from_str m args unescape_forms_agree f))).
-  - intros T env id attr cargs rest r H. inversion H as [| |T' env' e rest' r1 r2 He Hr]; subst.
-    inversion He; subst. eauto.
+  - intros io T env id attr cargs rest r. apply spec_term_then_rest.
 Qed.
 
 (* "An unresolvable message, term, attribute, function or caller-variable reference renders as its source
    form in braces and is reported exactly once as an error (a parameter that a term was not given renders the
    same way but is not an error)" — in the specification, for each kind: *)
 Theorem C07_unknown_reference_once :
-  (forall T env id attr r,                                   (* message / message attribute *)
-     message_target m id attr = Unknown -> spec_inline T env (MessageReference id attr) r ->
+  (forall io T env id attr r,                                (* message / message attribute *)
+     message_target m id attr = Unknown -> spec_inline io T env (MessageReference id attr) r ->
      r = (in_braces (MessageReference id attr), [Reference (RefMessage id attr)], [])) /\
-  (forall T env id attr cargs r,                             (* term / term attribute: after its arguments *)
-     term_target m id attr = Unknown -> spec_inline T env (TermReference id attr cargs) r ->
-     exists pos named es cs, spec_args T env cargs (pos, named, es, cs) /\
+  (forall io T env id attr cargs r,                          (* term / term attribute: after its arguments *)
+     term_target m id attr = Unknown -> spec_inline io T env (TermReference id attr cargs) r ->
+     exists pos named es cs, spec_args io T env cargs (pos, named, es, cs) /\
        r = (in_braces (TermReference id attr cargs), es ++ [Reference (RefTerm id attr)], cs)) /\
-  (forall T env id cargs r,                                  (* function: after its arguments *)
-     function_named m id = None -> spec_inline T env (FunctionReference id cargs) r ->
-     exists pos named es cs, spec_args T env (Some cargs) (pos, named, es, cs) /\
+  (forall io T env id cargs r,                               (* function: after its arguments *)
+     function_named m id = None -> spec_inline io T env (FunctionReference id cargs) r ->
+     exists pos named es cs, spec_args io T env (Some cargs) (pos, named, es, cs) /\
        r = (in_braces (FunctionReference id cargs), es ++ [Reference (RefFunction id)], cs)) /\
-  (forall T id r,                                            (* a variable the caller did not pass *)
-     variable args None id = None -> spec_inline T None (VariableReference id) r ->
+  (forall io T id r,                                         (* a variable the caller did not pass *)
+     variable args None id = None -> spec_inline io T None (VariableReference id) r ->
      r = (in_braces (VariableReference id), [Reference (RefVariable id)], [])) /\
-  (forall T la id r,                                         (* a parameter the term was not given: no error *)
-     variable args (Some la) id = None -> spec_inline T (Some la) (VariableReference id) r ->
+  (forall io T la id r,                                      (* a parameter the term was not given: no error *)
+     variable args (Some la) id = None -> spec_inline io T (Some la) (VariableReference id) r ->
      r = (in_braces (VariableReference id), [], [])).
 Proof.
   split; [|split; [|split; [|split]]].
-  - intros T env id attr r Ht H. inversion H; subst.
-    match goal with Hx : expand _ _ _ _ _ _ _ _ _ _ _ _ _ _ |- _ => rewrite Ht in Hx; inversion Hx; subst end. reflexivity.
-  - intros T env id attr cargs r Ht H. inversion H; subst.
-    match goal with Hx : expand _ _ _ _ _ _ _ _ _ _ _ _ _ _ |- _ => rewrite Ht in Hx; inversion Hx; subst end.
-    eexists _, _, _, _. split; [eassumption|]. unfold silent, fails, seq. cbn [fst snd]. rewrite app_nil_r. reflexivity.
-  - intros T env id cargs r Hf H. inversion H; subst; [congruence|].
-    eexists _, _, _, _. split; [eassumption | reflexivity].
-  - intros T id r Hv H. inversion H; subst; [congruence | reflexivity].
-  - intros T la id r Hv H. inversion H; subst; [congruence | reflexivity].
+  - intros io T env id attr r. apply spec_unknown_message.
+  - intros io T env id attr cargs r. apply spec_unknown_term.
+  - intros io T env id cargs r. apply spec_unknown_function.
+  - intros io T id r Hv H. exact (spec_missing_variable _ _ _ _ _ _ _ _ _ _ T None id r Hv H).
+  - intros io T la id r Hv H. exact (spec_missing_variable _ _ _ _ _ _ _ _ _ _ T (Some la) id r Hv H).
 Qed.
 
 (* the same on the model, in ANY scope (also after the limit has tripped): one step of InlineExpression::write
@@ -211,18 +231,16 @@ Theorem C07_unknown_function_reported :
      ir b (S f) (FunctionReference id cargs) sc = Done (VError, add_error sc1 (Reference (RefFunction id))) /\
      iw b (S f) (FunctionReference id cargs) sc =
        Done (braced (id ++ [40; 41]), add_error sc1 (Reference (RefFunction id)))) /\
-  (forall T env id cargs r,
-     function_named m id = None -> spec_value T env (FunctionReference id cargs) r ->
-     exists pos named es cs, spec_args T env (Some cargs) (pos, named, es, cs) /\
+  (forall io T env id cargs r,
+     function_named m id = None -> spec_value io T env (FunctionReference id cargs) r ->
+     exists pos named es cs, spec_args io T env (Some cargs) (pos, named, es, cs) /\
        r = (VError, es ++ [Reference (RefFunction id)], cs)).
 Proof.
   split.
   - intros b f id cargs sc pos named sc1 Hg Ha. split.
     + rewrite ir_S_function, Ha. cbn [obind]. rewrite Hg. reflexivity.
     + rewrite iw_S_function, Ha. cbn [obind]. rewrite Hg. reflexivity.
-  - intros T env id cargs r Hf H. inversion H; subst; try congruence.
-    + eexists _, _, _, _. split; [eassumption | reflexivity].
-    + match goal with Hx : textual _ = true |- _ => discriminate Hx end.
+  - intros io T env id cargs r. apply spec_unknown_function_value.
 Qed.
 
 (* "selects choose the first variant whose key equals the selector (exact string, exact number, or the
@@ -257,20 +275,11 @@ Proof.
   split; [|split; [|split; [|split; [|split]]]].
   - intros variants sel sc hit sc' Hc H.
     exact (proj1 (select_hit_spec rules f64_from_str variants sel sc hit sc' Hc H)).
-  - intros before v after sel Hb Hv. unfold chosen.
-    assert (E : find (fun v => key_matches rules f64_from_str (variant_key_of v) sel) (before ++ v :: after) = Some v).
-    { induction before as [|u r IH]; cbn [app find].
-      - rewrite Hv. reflexivity.
-      - rewrite (Hb u (or_introl eq_refl)). apply IH. intros u' Hu. apply Hb. right. exact Hu. }
-    rewrite E. reflexivity.
-  - intros variants sel Hn. unfold chosen.
-    assert (E : find (fun v => key_matches rules f64_from_str (variant_key_of v) sel) variants = None).
-    { induction variants as [|u r IH]; cbn [find]; [reflexivity|].
-      rewrite (Hn u (or_introl eq_refl)). apply IH. intros u' Hu. apply Hn. right. exact Hu. }
-    rewrite E. reflexivity.
-  - reflexivity.
-  - intros lit x value options Hx. unfold key_matches, key_value, try_number, fnumber_from_str. rewrite Hx. reflexivity.
-  - intros name n cat ops Hk Ho. unfold key_matches, key_value. rewrite Hk, Ho. reflexivity.
+  - intros before v after sel. apply chosen_first.
+  - intros variants sel. apply chosen_default.
+  - intros name s0. apply key_matches_string.
+  - intros lit x value options. apply key_matches_number.
+  - intros name n cat ops. apply key_matches_category.
 Qed.
 
 End C07.
